@@ -126,7 +126,7 @@ void run(Src &src, Case &c)
                 msg += "\n(the same model with every class of connected variables given one name throughout is classified correctly)";
             }
         }
-        report(c, sig, msg + "\n--- analyser model\n" + ob.dump);
+        report(c, sig, msg + "\n--- analyser model\n" + ob.dump());
         return;
     }
 
@@ -201,7 +201,7 @@ void run(Src &src, Case &c)
         } else {
             full = std::string(nameDependent ? "C05.name-dependent|metamorphic|" : "C05.metamorphic|") + transformName(applied[culprit]) + "|" + vsig;
         }
-        report(c, full, "after " + std::string(transformName(applied[culprit])) + ": " + vmsg + "\n--- transformed model\n" + specToText(stages[culprit].spec) + "\n--- analyser model (base)\n" + ob.dump + "--- analyser model (final family member)\n" + ov.dump);
+        report(c, full, "after " + std::string(transformName(applied[culprit])) + ": " + vmsg + "\n--- transformed model\n" + specToText(stages[culprit].spec) + "\n--- analyser model (base)\n" + ob.dump() + "--- analyser model (final family member)\n" + ov.dump());
     }
 
     // ---- (d) constraint variants
@@ -248,7 +248,7 @@ void run(Src &src, Case &c)
                 vsig = "C05.name-dependent|" + stripId(vsig);
             }
         }
-        report(c, vsig, vmsg + "\n--- variant\n" + specToText(v.spec) + "\n" + v.describe() + ov.dump);
+        report(c, vsig, vmsg + "\n--- variant\n" + specToText(v.spec) + "\n" + v.describe() + ov.dump());
     }
 }
 
